@@ -157,6 +157,37 @@ def mk_history(first_axis, second_axis):
     return body
 
 
+FLOAT_AXES = [(1e-9, 0.0, -1.0), (0.0, 1e-9, -1.0), (1e-12, 0.0, -7.0), (1e-9, 1e-9, 1.0), (-1e-10, 0.0, 2.0), (1.0, 1e-9, 0.0), (-1.0, 0.0, 1e-9), (0.0, -3.0, 1e-10),
+              (1e-9, -1.0, 0.0), (5e-324, 0.0, -1.0), (3e-9, -2e-9, 4.0)]      # (axis length of order 1: squares of the components neither overflow nor underflow together)
+
+
+def mk_float_axis(axis):
+    def body(ctx):
+        """an axis given as doubles that lies within rounding of a coordinate axis without being on it (a tiny non-zero component):
+        the alignment angles are then computed from quotients that round to exactly +-1 or 0.  The code runs on these concrete
+        doubles (its own floating-point alignment), angle and vector symbolic; the result is Rodrigues' formula within 1e-6"""
+        import propka.vector_algebra as V
+        ax, ay, az = axis
+        theta, s, c = _theta(ctx, 0)
+        vx = ctx.real('vx', -10, 10)
+        vy = ctx.real('vy', -10, 10)
+        vz = ctx.real('vz', -10, 10)
+        r = V.rotate_vector_around_an_axis(theta, V.Vector(ax, ay, az), V.Vector(vx, vy, vz))
+        n = math.sqrt(ax * ax + ay * ay + az * az)
+        if n == 0.0 or n != n:
+            return
+        ux, uy, uz = ax / n, ay / n, az / n
+        cx, cy, cz = uy * vz - uz * vy, uz * vx - ux * vz, ux * vy - uy * vx
+        dot = ux * vx + uy * vy + uz * vz
+        for nm, got, want in (('x', r.x, c * vx + s * cx + (1 - c) * dot * ux), ('y', r.y, c * vy + s * cy + (1 - c) * dot * uy), ('z', r.z, c * vz + s * cz + (1 - c) * dot * uz)):
+            d = got - want
+            if ctx.native:
+                ctx.claim('near-axis:' + nm, abs(d) <= 1e-6, detail='%r vs %r' % (got, want))
+            else:
+                ctx.claim('near-axis:' + nm, And(le(d, 1e-6), ge(d, -1e-6)))
+    return body
+
+
 def mk_generic(axis, k=0):
     def body(ctx):
         ax, ay, az = (_num(ctx, v) for v in axis)
@@ -224,6 +255,10 @@ def obligations(tier):
         obs.append(Obligation('O1-short-axis-%s-zero' % zero, mk_short_axis(zero), code=code,
                               bounds='axis component %s = 0, the other two in [-2^-30, 2^-30] not both 0; angle any; vector components 0 or of magnitude in [0.5, 10]' % zero,
                               claim_doc='result within 1e-6 of the Rodrigues rotation (the rotation does not depend on the length of the axis)', query_timeout_ms=30000, wall_s=200))
+    for a in (FLOAT_AXES[:6] if tier == 'quick' else FLOAT_AXES):
+        obs.append(Obligation('O2-axis-within-rounding-of-a-coordinate-axis%r' % (a,), mk_float_axis(a), code=code,
+                              bounds='concrete axis %r given as doubles (the code aligns it in its own floating-point arithmetic: quotients that round to exactly +-1 or 0); angle any; vector in [-10,10]^3' % (a,),
+                              claim_doc='result within 1e-6 of the Rodrigues rotation, per coordinate', query_timeout_ms=30000, wall_s=120))
     for a in generic_axes(tier):
         obs.append(Obligation('O2-axis(%d,%d,%d)' % a, mk_generic(a), code=code,
                               bounds='concrete generic axis %r (radicals kept exact); angle any; vector in [-10,10]^3' % (a,),
